@@ -272,12 +272,59 @@ class Planter:
         self.insert(inner[0], node(self.rng.choice(UNKNOWN_NAMES + ["creator"]), None))
         return inner[0], "metadata-deep-foreign"
 
+    KINDS = ("unknown", "misplaced", "invalid")
+
+    def plant_inside(self, sub, kind):
+        """an offender of the given kind somewhere inside the subtree `sub` (its root included as a parent)"""
+        if kind == "unknown":
+            tgt = self.pick(sub)
+            self.insert(tgt[0], self.small_subtree(self.rng.choice(UNKNOWN_NAMES[:2])))
+        elif kind == "misplaced":
+            tgt = self.pick(sub, lambda n, p, m: n["name"] in self.tb.node_map and n["name"] != "metadata") or self.pick(sub)
+            self.plant_misplaced(sub, tgt)
+        else:
+            tgt = self.pick(sub, lambda n, p, m: p is not None) or self.pick(sub)
+            self.make_invalid(sub, tgt)
+
+    def plant_nested(self, t, outer=None, inner=None):
+        """an offender whose own subtree holds another offender: every combination of the three kinds"""
+        outer = outer or self.rng.choice(self.KINDS)
+        inner = inner or self.rng.choice(self.KINDS)
+        tgt = self.pick(t, lambda n, p, m: not m and n["name"] in self.tb.node_map and n["name"] != "metadata")
+        if tgt is None:
+            return None, None
+        host = tgt[0]
+        if outer == "unknown":
+            sub = node(self.rng.choice(UNKNOWN_NAMES[:2]), None, [], [self.gen.tree(self.rng.choice(self.tb.known), 1, False)])
+            self.plant_inside(sub, inner)
+            self.insert(host, sub)
+        elif outer == "misplaced":
+            al = self.tb.allowed(host["name"])
+            cand = [k for k in self.tb.known if k not in al and self.tb.rules[self.tb.node_map[k]][1]]
+            nm = self.rng.choice(cand or self.tb.known)
+            sub = self.gen.tree(nm, 2, False)                # a known element with children of its own
+            self.plant_inside(sub, inner)
+            self.insert(host, sub)
+        else:
+            # an existing (allowed) child with children becomes invalid; the inner offender goes inside it
+            c = self.pick(t, lambda n, p, m: not m and p is not None and n["kids"] and n["name"] in self.tb.node_map
+                          and n["name"] != "metadata")
+            if c is None:
+                return None, None
+            if all(a[0] != "zzAttr" for a in c[0]["attrs"]):
+                c[0]["attrs"].append(["zzAttr", "1"])
+            self.plant_inside(c[0], inner)
+            host = c[1]
+        return host, f"nested:{outer}/{inner}"
+
     def mutate(self, t, ctx):
         n = self.rng.choice([0, 1, 1, 2, 2, 3, 4])
         tags = []
         for _ in range(n):
             r = self.rng.random()
-            if r < 0.3:
+            if r < 0.2:
+                p, tag = self.plant_nested(t)
+            elif r < 0.4:
                 p, tag = self.plant_unknown(t)
             elif r < 0.6:
                 p, tag = self.plant_misplaced(t)
@@ -289,7 +336,7 @@ class Planter:
                 continue
             tags.append(tag)
             # errors on the PARENT (and grandparent) of a planted node
-            if tag in ("unknown", "misplaced") and self.rng.random() < 0.5:
+            if tag in ("unknown", "misplaced") and p is not None and self.rng.random() < 0.5:
                 _, tg = self.make_invalid(t, (p, None, False))
                 tags.append("parent-" + tg)
                 anc = [q for q, _, _ in walk(t) if any(k is p for k in q["kids"])]
@@ -399,7 +446,9 @@ def observe(root, strict, clear=True):
             val(c, False, below_meta or n.name == "metadata")
     val(root, True, False)
     out["invalid_left"] = fails
-    # second prune
+    # second prune; the list the first call returned is the caller's: emptying it must not matter
+    pruned.clear()
+    pruned.append(("not a node", "not a reason"))
     try:
         again = validate.prune(root, strict)
         out["second"] = [(n.id, reason_kind(m)) for n, m in again]
@@ -504,6 +553,52 @@ def delete_ids(t, gone):
     return c
 
 
+def _passes_node(n):
+    """single-node validation of a plain node (name, content, attributes, child names) on the implementation"""
+    from metapype.eml import validate
+    from metapype.eml.exceptions import MetapypeRuleError
+    from metapype.model.node import Node
+    saved = dict(Node.store)
+    try:
+        live = RL.build_node(fstr(n["name"]), fstr(n["content"]), [(fstr(k), fstr(v)) for k, v in n["attrs"]], [fstr(k["name"]) for k in n["kids"]])
+        try:
+            validate.node(live)
+            return True
+        except MetapypeRuleError:
+            return False
+    finally:
+        Node.store.clear()
+        Node.store.update(saved)
+
+
+def expected_prune(tb, n, strict):
+    """The statement, bottom-up, for a node that stays: (what is left of it, the removed subtree ROOTS in order).
+    A child goes — as one whole subtree, named once — when its parent's rule does not list it or its name is
+    unknown; otherwise pruning looks inside it (naming what goes there) and, in strict mode, the child itself
+    goes when what is left of it fails single-node validation.  Nothing inside a subtree that goes as a whole
+    is named.  Order: first the children the rule does not list, then child by child."""
+    if n["name"] == "metadata":
+        return n, []
+    al = tb.allowed(n["name"])
+    first = [(c["id"], "notallowed") for c in n["kids"] if c["name"] not in al]
+    kept, later = [], []
+    for c in n["kids"]:
+        if c["name"] not in al:
+            continue
+        if c["name"] not in tb.node_map:
+            later.append((c["id"], "unknown"))
+            continue
+        c2, inner = expected_prune(tb, c, strict)
+        later += inner
+        if strict and not _passes_node(c2):
+            later.append((c["id"], "invalid"))
+        else:
+            kept.append(c2)
+    left = dict(n)
+    left["kids"] = kept
+    return left, first + later
+
+
 def statement_violations(tb, t, strict, o):
     """list of (key, what) where the implementation's observed behaviour contradicts the property text"""
     v = []
@@ -559,6 +654,19 @@ def statement_violations(tb, t, strict, o):
             covered |= set(ids_of(by_id[i][0]))
     if covered != removed:
         v.append(("list-cover", "the subtrees of the listed nodes are not exactly the removed nodes"))
+    # the returned list is PRECISELY the removed subtree roots (an exact list), and the tree is the statement's
+    if t["name"] in tb.node_map:
+        want_tree, want_list = expected_prune(tb, t, strict)
+        got_list = [(i, k) for i, k in o["returned"]]
+        if sorted(got_list) != sorted(want_list):
+            extra = [x for x in got_list if x not in want_list]
+            missing = [x for x in want_list if x not in got_list]
+            v.append(("returned-list", f"the returned list is not precisely the removed subtree roots: names in addition {extra[:4]} "
+                      f"(inside a subtree that goes as a whole, or not removed), lacks {missing[:4]}"))
+        elif got_list != want_list:
+            v.append(("returned-list-order", f"the returned list names the removed subtree roots in another order: {got_list[:6]} expected {want_list[:6]}"))
+        if want_tree != after:
+            v.append(("tree", "the pruned tree is not the statement's (a child stays iff its parent's rule lists it, its name is known, and in strict mode it validates after its own pruning)"))
     # reasons are truthful: only offending subtrees are removed
     for i, kind in o["returned"]:
         if i not in by_id:
@@ -670,6 +778,18 @@ def cases(ctx, tb):
     thorough = ctx.tier == "thorough"
     bases = base_trees(ctx, tb, gen, 220 if thorough else 60)
     rounds = 6 if thorough else 2
+    # nested offenders: every (outer, inner) combination of the three kinds on several bases
+    nest_bases = [b for b in bases if b[0] in ("eml.xml-subtree", "generated", "eml.xml-trimmed") and 4 <= size(b[1]) <= 30]
+    ctx.rng.shuffle(nest_bases)
+    for kind, base in nest_bases[: (24 if thorough else 6)]:
+        for outer in Planter.KINDS:
+            for inner in Planter.KINDS:
+                t = copy.deepcopy(base)
+                p, tag = pl.plant_nested(t, outer, inner)
+                if p is None or t["name"] not in tb.node_map:
+                    continue
+                reid(t)
+                yield kind, [tag], t
     for kind, base in bases:
         reps = rounds * (4 if kind in ("eml.xml", "eml.xml-trimmed", "wide") else 1)
         for r in range(reps):
